@@ -1,5 +1,5 @@
-(* C05: concrete witnesses (evaluated by vm_compute) - where the full statements fail on the faithful
-   models, and non-vacuity instances of the proved ones.  The same histories are replayed on the real
+(* C05: concrete witnesses (evaluated by vm_compute) - documented differences of the two storage flavours
+   OUTSIDE the quantifier of C05 (import / clone), and non-vacuity instances of the proved theorems.  The same histories are replayed on the real
    code by harness/c05.py (refuted_witnesses) on every run. *)
 From Coq Require Import List NArith Bool.
 From FIM Require Import Base.Assoc Model.Store Model.StoreDisjoint Model.PGSpec.
@@ -8,7 +8,6 @@ Import ListNotations.
 Open Scope N_scope.
 
 (* interned names used below: g0=10 g1=11 n0=20 n1=21 c0=30 r0=40 p0=50 v0=60 *)
-Definition w_matching : list op := [OAddNode 10 20 30 None; OMatching 10 11].
 Definition w_reimport : list op :=
   [OAddNode 10 20 30 None; OImport 10 (mkI [(1, [(k_nodeid, PV 21); (k_class, PV 30)])] []); OListIds 10].
 Definition w_clone : list op := [OClone 10 11].
@@ -19,12 +18,6 @@ Definition results_eqb (a b : list res) : bool := list_eqb res_eqb a b.
 
 Lemma all_in_scope (f : op -> bool) l : forallb f l = true -> forall o, In o l -> f o = true.
 Proof. intro H. now apply forallb_forall. Qed.
-
-(* find_matching_nodes with a partner that holds no node: AssertionError vs empty set *)
-Lemma agree_matching_absent_partner_refuted :
-  exists ops, (forall o, In o ops -> refine_scope o = true) /\
-              results_eqb (sresults init_store ops) (dresults init_dstore ops) = false.
-Proof. exists w_matching. split; [apply all_in_scope|]; vm_compute; reflexivity. Qed.
 
 (* import onto a live id: replaced vs kept *)
 Lemma agree_reimport_live_refuted :
@@ -38,19 +31,11 @@ Lemma agree_clone_absent_source_refuted :
               results_eqb (sresults init_store ops) (dresults init_dstore ops) = false.
 Proof. exists w_clone. split; [apply all_in_scope|]; vm_compute; reflexivity. Qed.
 
-(* merge_nodes raising KeyError leaves the surviving node without any property *)
-Lemma merge_atomic_refuted :
-  exists ops o u,
-    (forall x, In x ops -> nid_scope x = true) /\ nid_scope o = true /\
-    snd (sstep (srun ops init_store) o) = Err EKey /\
-    (exists ps, nx_node (sg (srun ops init_store)) u = Some ps /\ ahas k_graphid ps = true) /\
-    nx_node (sg (fst (sstep (srun ops init_store) o))) u = Some [].
-Proof.
-  exists (firstn 2 w_merge), (OMerge 10 20 11 (Some [(50, s_overwrite)])), 1.
-  split; [apply all_in_scope; vm_compute; reflexivity|].
-  split; [vm_compute; reflexivity|]. split; [vm_compute; reflexivity|].
-  split; [eexists; split; vm_compute; reflexivity | vm_compute; reflexivity].
-Qed.
+(* merge_nodes raising KeyError (policy needs a property the other node lacks) changes nothing *)
+Lemma merge_fails_nonvacuous :
+  snd (sstep (srun (firstn 2 w_merge) init_store) (OMerge 10 20 11 (Some [(50, s_overwrite)]))) = Err EKey /\
+  fst (sstep (srun (firstn 2 w_merge) init_store) (OMerge 10 20 11 (Some [(50, s_overwrite)]))) = srun (firstn 2 w_merge) init_store.
+Proof. vm_compute. split; reflexivity. Qed.
 
 (* ---------- non-vacuity instances ---------- *)
 (* a 12-step history inside refine_scope with existing partners, two graphs, links, updates, listing *)
@@ -58,13 +43,13 @@ Definition w_agree : list op :=
   [OAddNode 10 20 30 None; OAddNode 10 21 31 (Some [(50, PV 60)]); OAddLink 10 20 40 21 None;
    OAddNode 11 20 30 None; OAddNode 10 20 31 None; OUpdNode 10 20 50 (PV 61); OUnsetNode 10 20 k_name;
    OUnsetNode 10 21 51; OUpdLink 10 21 20 40 50 (PV 60); OMatching 10 11; OListIds 10; ODelNode 10 20;
-   OGetLink 10 20 21; ODelGraph 11; OGraphExists 11].
+   OGetLink 10 20 21; ODelGraph 11; OGraphExists 11; OMatching 10 11].
 
 Lemma agree_nonvacuous :
-  forallb refine_scope w_agree = true /\ partners_exist [] w_agree = true /\
+  forallb refine_scope w_agree = true /\
   sresults init_store w_agree =
     [Ok RUnit; Ok RUnit; Ok RUnit; Ok RUnit; Err EQuery; Ok RUnit; Err EQuery; Ok RUnit; Ok RUnit;
-     Ok (RVals [PV 20]); Ok (RVals [PV 20; PV 21]); Ok RUnit; Err EQuery; Ok RUnit; Ok (RBool false)] /\
+     Ok (RVals [PV 20]); Ok (RVals [PV 20; PV 21]); Ok RUnit; Err EQuery; Ok RUnit; Ok (RBool false); Ok (RVals [])] /\
   dresults init_dstore w_agree = sresults init_store w_agree.
 Proof. vm_compute. repeat split. Qed.
 
